@@ -549,6 +549,9 @@ func (rp *report) finish(wall time.Duration) int {
 		fmt.Printf("INCONCLUSIVE property=%s %s\n", o.Property, ic)
 	}
 	verdict := map[int]string{0: "HOLDS-WITHIN-BOUNDS", 1: "VIOLATED", 2: "INCONCLUSIVE"}[exit]
+	if exit == 0 && len(knownSeen(rp)) > 0 {
+		verdict = "HOLDS-WITHIN-BOUNDS-EXCEPT-KNOWN-FINDINGS"
+	}
 	fmt.Printf("%s property=%s tier=%s paths=%d decisions=%d queries=%d solver=%.1fs replays=%d/%d wall=%.1fs\n",
 		verdict, o.Property, o.Tier, states, transitions, queries, solverTime.Seconds(), rp.replayAgreed, rp.replayed, wall.Seconds())
 	return exit
